@@ -13,8 +13,8 @@ RULE = (
     "order, query points inside and up to +-10 spans outside; oracle = exact rational affine map, exact end points, strict "
     "monotonicity, invert round trips, clamp. (b) histories: a pool of scales under domain/range/clamp/nice/copy steps (a step "
     "names its target modulo the pool size); after every step every scale must map the end points of the domain it reports to the "
-    "end points of the range it reports, and every scale other than the target must be unchanged (domain, range, clamp, outputs "
-    "at probes). Non-trivial: (a) query differs from both ends; (b) a copy followed later by nice on either party. "
+    "end points of the range it reports and invert the range ends back to them, and every scale other than the target must be "
+    "unchanged (domain, range, clamp, outputs and inverses at probes). Non-trivial: (a) query differs from both ends; (b) a copy followed later by nice on either party. "
     "distinct = distinct spec hash."
 )
 ASSUMPTIONS = [
@@ -151,8 +151,11 @@ def check_map(spec, ctx):
 PROBES = (-3.0, 0.5, 7.25, 1e3, -2e-4)
 
 
+YPROBES = (-10.0, 0.25, 33.0)
+
+
 def snap(s):
-    return (list(s.domain()), list(s.range()), s.clamp(), tuple(s(p) for p in PROBES))
+    return (list(s.domain()), list(s.range()), s.clamp(), tuple(s(p) for p in PROBES), tuple(s.invert(y) for y in YPROBES))
 
 
 def check_history(spec, ctx):
@@ -192,6 +195,9 @@ def check_history(spec, ctx):
             y0, y1 = lib_call(x, d[0]), lib_call(x, d[1])
             if y0 != r[0] or y1 != r[1]:
                 raise Violation("reported-domain-not-mapped", "after step %d (%s on %d) scale %d reports domain %r range %r but maps the ends to %r, %r" % (n, op, i, j, d, r, y0, y1))
+            x0, x1 = lib_call(x.invert, r[0]), lib_call(x.invert, r[1])
+            if x0 != d[0] or x1 != d[1]:
+                raise Violation("invert-not-inverse-of-reported-state", "after step %d (%s on %d) scale %d reports domain %r range %r but inverts the range ends to %r, %r" % (n, op, i, j, d, r, x0, x1))
     return nontrivial
 
 
